@@ -324,8 +324,6 @@ def s4(ck: Check) -> None:
     prog = ck.prog
     gm = GrowthModel(prog)
     for fm in prog.models():
-        if fm.f.module.name == SD_MOD:
-            continue
         fresh = fresh_diagrams(fm)
         done = set()
         for e in fm.field_events():
@@ -450,11 +448,11 @@ def _bwd_closed(prog, fm: FuncModel, e, at, depth) -> tuple[bool, str]:
         _BW_SEEN.clear()
     if e is None or depth > 20:
         return False, "origin too indirect"
-    if isinstance(e, ast.Call) and callee_name(e) in ("list", "sorted", "set") and e.args:
+    if isinstance(e, ast.Call) and callee_name(e) in ("list", "sorted", "set", "frozenset", "tuple") and e.args:
         return _bwd_closed(prog, fm, e.args[0], at, depth + 1)
     if isinstance(e, ast.Call) and callee_name(e) == "backward_reachable":
         return True, ""
-    if isinstance(e, ast.SetComp) or isinstance(e, ast.ListComp):
+    if isinstance(e, (ast.SetComp, ast.ListComp, ast.GeneratorExp)):
         if e.generators[0].ifs:
             return False, "filtered"
         return _bwd_closed(prog, fm, e.generators[0].iter, at, depth + 1)
@@ -566,6 +564,21 @@ def _list_of_closed(prog, fm: FuncModel, name: str, at, depth) -> tuple[bool, st
             if not _source_sccs_closed(prog):
                 return False, "source_SCCs no longer keeps only components equal to their backward closure"
             continue
+        if isinstance(v, ast.ListComp) and len(v.generators) == 1 and not v.generators[0].ifs:
+            # [(set(block), nodes) for block, nodes in groups.items()]: the keys of a grouping dictionary
+            g_ = v.generators[0]
+            it_ = g_.iter
+            first = v.elt.elts[0] if isinstance(v.elt, ast.Tuple) and v.elt.elts else v.elt
+            while isinstance(first, ast.Call) and callee_name(first) in ("set", "frozenset", "list", "sorted", "tuple") and len(first.args) == 1:
+                first = first.args[0]
+            key_t = g_.target.elts[0] if isinstance(g_.target, ast.Tuple) and g_.target.elts else None
+            if isinstance(it_, ast.Call) and callee_name(it_) == "items" and isinstance(it_.func, ast.Attribute) \
+                    and isinstance(it_.func.value, ast.Name) and isinstance(first, ast.Name) and isinstance(key_t, ast.Name) \
+                    and first.id == key_t.id:
+                r = _dict_keys_closed(prog, fm, it_.func.value.id, d, depth + 1)
+                if not r[0]:
+                    return r
+                continue
         return False, f"`{name}` = `{text(v)[:40]}`"
     # appended elements
     for n in own_walk(fm.f.node):
@@ -576,6 +589,31 @@ def _list_of_closed(prog, fm: FuncModel, name: str, at, depth) -> tuple[bool, st
             if not r[0]:
                 return r
     return True, ""
+
+
+def _dict_keys_closed(prog, fm: FuncModel, name: str, at, depth) -> tuple[bool, str]:
+    """every key ever stored in the local dictionary `name` is a regulator-closed variable set"""
+    for d in fm.cfg.reaching_defs(name, at):
+        v = d.ast.value if d.kind == "stmt" and isinstance(d.ast, (ast.Assign, ast.AnnAssign)) else None
+        if not (isinstance(v, ast.Dict) and not v.keys or isinstance(v, ast.Call) and callee_name(v) in ("dict", "OrderedDict", "defaultdict")
+                and not any(isinstance(a_, (ast.Dict, ast.Name)) for a_ in v.args)):
+            return False, f"`{name}` does not start as an empty dictionary"
+    n_keys = 0
+    for n in own_walk(fm.f.node):
+        key = None
+        if isinstance(n, ast.Subscript) and isinstance(n.ctx, ast.Store) and text(n.value) == name:
+            key = n.slice
+        elif isinstance(n, ast.Call) and isinstance(n.func, ast.Attribute) and text(n.func.value) == name:
+            if n.func.attr == "setdefault" and n.args:
+                key = n.args[0]
+            elif n.func.attr in ("update", "__setitem__"):
+                return False, f"`{name}` filled by {n.func.attr}"
+        if key is not None:
+            n_keys += 1
+            r = _bwd_closed(prog, fm, key, fm.cfgn(n), depth + 1)
+            if not r[0]:
+                return r
+    return (True, "") if n_keys else (False, f"`{name}` has no keys")
 
 
 # ------------------------------------------------------------------------------------------ S7
